@@ -259,14 +259,6 @@ FULL = ["I", "Z", "Neg", "Sr", "Sc", "Srd", "Dr", "Drd", "Dc", "Dc1", "Dc2", "Dc
 
 
 # ------------------------------------------------------------------ enumeration
-def _tree_ops(t):
-    return 0 if isinstance(t, str) else sum(_tree_ops(c) for c in t[1:] if isinstance(c, (str, list)) and not _is_scalar(c)) + 1
-
-
-def _is_scalar(c):
-    return isinstance(c, list) and len(c) == 2 and all(isinstance(v, (int, float)) for v in c)
-
-
 def enumerate_trees(leaf_types, names, max_ops, scalars, sandwich=True):
     """All type-correct trees with <= max_ops operator nodes over the leaves
     `names`.  Returns list of (n_ops, tree) simplest first.
@@ -348,9 +340,6 @@ def count_trees(leaf_types, names, max_ops, n_scalars, sandwich=True):
 
 
 # ------------------------------------------------------------------ reference evaluation
-_CAPTABLE = {}
-
-
 def _perm_cap(cap, trafo):
     """Capability of the adjoint (trafo 1) / inverse (2) / adjoint-inverse (3):
     mode m of the result is available iff mode m' of the original is, where
